@@ -312,6 +312,12 @@ pub fn shape_input() -> Vec<Rep> {
     group(&[(c, 1), (c, 2), (c, 3)], &mut v);
     group(&[(i, 1), (i, 2), (i, 3)], &mut v);
     group(&[(i, 1), (c, 2), (i, 3), (c, 4)], &mut v);
+    // larger groups (5..=9, 11 reports of one match key) with non-zero conversion values: nothing
+    for size in [5usize, 6, 7, 8, 9, 11] {
+        let reps: Vec<(bool, u32)> = (0..size).map(|k| if k % 2 == 0 { (c, 1 + (k as u32 % 7)) } else { (i, 3 + k as u32) }).collect();
+        group(&reps, &mut v);
+    }
+    group(&[(c, 5), (c, 5), (c, 5), (c, 5), (c, 5)], &mut v);
     // pairs: II (value 0), IC, CI, CC with wrap of the value (7+7, 4+4) and of the key (255+1, 128+128)
     group(&[(i, 255), (i, 1)], &mut v);
     group(&[(i, 128), (i, 128)], &mut v);
@@ -429,6 +435,22 @@ fn run() {
         reps.extend(saturation_input(3, 9).into_iter().map(|mut x| { x.mk += 10_000; x }));
         let n = reps.len();
         cases.push(Case1 { shards, malicious, hv_bits: 8, padding: false, reports: reps, assign: (0..n).map(|i| i % shards).collect(), seed: seed + 13 });
+    }
+    // row counts around the 256-row chunk of the share conversion / PRF evaluation, one shard, no padding
+    for (rows, malicious) in [(255usize, false), (256, false), (256, true), (257, false), (512, false)] {
+        if !thorough && rows == 512 {
+            continue;
+        }
+        let mut reps = Vec::new();
+        for p in 0..rows / 2 {
+            reps.push(Rep { conversion: false, mk: 90_000 + p as u64, data: (p % 256) as u32 });
+            reps.push(Rep { conversion: true, mk: 90_000 + p as u64, data: 1 + (p % 7) as u32 });
+        }
+        if rows % 2 == 1 {
+            reps.push(Rep { conversion: true, mk: 99_999, data: 7 });
+        }
+        let n = reps.len();
+        cases.push(Case1 { shards: 1, malicious, hv_bits: 16, padding: false, reports: reps, assign: vec![0; n], seed: seed + 14 });
     }
     run_cases(&rt, &cases, &mut r, "attribution");
     r.sample(json!({"case":case_json(&cases[cases.len() / 3])}));
